@@ -7,6 +7,9 @@ footprint-disjoint create histories, so the expected quiet tree is known) and an
 (busy, change_count, walk; in on-demand mode also the smart_* calls).  Recorded and judged by Trace_Sys.tla:
   LockOwned     every call into the state's mutation funnel (SyncState.updated) is made by a thread that owns the state lock -
                 a deterministic observation per (thread, call site, field), not a timing one
+  StepAtomic    the state lock is an observed object: inside one entry synchronisation (SyncManager._sync_one_entry), one event
+                application (EventManager._process_event) or one on-demand request (SmartCloudSync._smart_sync_ent) the lock is
+                never fully released and taken again - each of those is ONE critical section (again per call site, not timing)
   AsExpected / Converged / NoLoss / NoArtefacts / ReachesQuiet   the threaded run ends like the sequential ones
 A real-time timeout before quiet is retried sequentially (same history, stepped deterministically) before it counts.
 """
@@ -19,7 +22,7 @@ from .. import syscheck as sc
 from .. import sysfam, thrdrv
 from .. import tracecheck as tc
 
-CLAUSES = {"LockOwned", "AsExpected", "Converged", "NoLoss", "NoArtefacts", "ReachesQuiet"}
+CLAUSES = {"LockOwned", "StepAtomic", "AsExpected", "Converged", "NoLoss", "NoArtefacts", "ReachesQuiet"}
 
 
 def histories(ctx, n, seed, count):
@@ -56,6 +59,11 @@ def run(ctx):
         for i, h in enumerate(hs):
             for rep in range(2 if quick else 4):
                 cases.append({"flavor": fl, "ops": h, "seed": ctx.seed * 1000 + i * 10 + rep, "base": "empty"})
+    # on-demand engine: the same histories with an application thread touring the smart_* public methods
+    for fl in flavors[:2]:
+        for i, h in enumerate(hs[:6 if quick else 30]):
+            cases.append({"flavor": fl, "ops": h, "seed": ctx.seed * 1000 + i * 10 + 7, "base": "empty", "smart": True,
+                          "app_calls": ["busy", "change_count", "smart_listdir", "smart_sync", "smart_unsync"]})
     with multiprocessing.get_context("fork").Pool(min(ctx.workers, 8)) as pool:
         res = pool.map(thrdrv.execute, cases, chunksize=1)
     traces = []
@@ -76,8 +84,8 @@ def run(ctx):
         if clause not in CLAUSES:
             continue
         ev = traces[ti][line - 1]
-        sig = {"clause": clause, "flavor": cases[ti]["flavor"]}
-        if clause == "LockOwned":
+        sig = {"clause": clause, "flavor": cases[ti]["flavor"], "smart": bool(cases[ti].get("smart"))}
+        if clause in ("LockOwned", "StepAtomic"):
             sig.update(site=ev["site"], key=ev["key"], thread=ev["thread"])
         ctx.report(sig, {"case": cases[ti], "event": {k: v for k, v in ev.items() if k != "post"}}, replay=cases[ti])
     sites = {(e["thread"], e["site"], e["key"]) for t in traces for e in t if e["ev"] == "Prim"}
